@@ -495,6 +495,13 @@ def correspondence(ctx):
     # operands that are never-run Models (is_initialized False although their nodes are initialised) or lists
     for lc in directed_links() + [gen_link(rng) for _ in range(ctx.n(80, 600))]:
         link_terms.append(run_link(lc))
+    # Model-level unsupported operations (Model.fit without offline learner ...)
+    for mc in directed_models() + [gen_model_case(rng) for _ in range(ctx.n(40, 300))]:
+        try:
+            rec = run_model_case(mc)
+            link_terms.append((model_term(mc, rec), {"model": mc, "observed": rec}))
+        except Exception:
+            link_terms.append(("false", {"model": mc, "impl_error": traceback.format_exc()[-400:]}))
     # the runner and the model it executes are (re)built from the current sources, independently of the proofs
     ok, log, failed = core.compile_cone(core.coq_cone("run/RunC12.v"))
     if not ok:
@@ -869,6 +876,8 @@ def judge(case):
     sc = case.get("scenario", {})
     if "link" in sc:
         return judge_link(sc["link"])
+    if "model" in sc:
+        return judge_model(sc["model"])
     v = _judge(sc) if "ops" in sc else []
     return v[0] if v else None
 
@@ -969,6 +978,125 @@ def concat_exposure():
     return out
 
 
+# ------------------------------------------------------------------------------------------ models: unsupported operations
+MODEL_KINDS = ["Reservoir", "RLS", "LMS", "FORCE", "Identity", "Tanh", "Delay", "NVAR", "Input", "Ridge", "IPReservoir"]
+
+
+def gen_model_case(rng):
+    """A chain a >> b (>> c) of fresh nodes and an operation on the Model; most chains hold NO offline learner."""
+    k = rng.randint(2, 3)
+    head = rng.choice(["Reservoir", "Reservoir", "Identity", "Input", "Delay", "NVAR", "Tanh", "IPReservoir"])
+    if rng.random() < 0.75:
+        tail_pool = ["RLS", "LMS", "FORCE", "Identity", "Tanh", "Delay"]
+        head = head if head != "IPReservoir" else "Reservoir"
+    else:
+        tail_pool = ["Ridge", "RLS", "Identity"]
+    kinds = [head] + [rng.choice(tail_pool) for _ in range(k - 1)]
+    # at most one readout, at the end, so that the targets have a single destination
+    kinds = [c for c in kinds[:-1] if c not in READOUT] + [kinds[-1]]
+    if len(kinds) < 2:
+        kinds = ["Reservoir"] + kinds
+    return {"kinds": kinds, "op": "fit" if rng.random() < 0.8 else "train",
+            "d": rng.randint(1, 4), "m": rng.randint(1, 3), "d2": rng.randint(1, 4), "m2": rng.randint(1, 3), "T": rng.randint(2, 6),
+            "seed": rng.randint(0, 10 ** 6)}
+
+
+def _mk_model(kinds):
+    nodes = []
+    for c in kinds:
+        nd = {"cls": c, "units": 3, "seed": 1, "delay": 1, "order": 1}
+        nodes.append(make_node(nd))
+    m = nodes[0]
+    for n in nodes[1:]:
+        m = m >> n
+    return m, nodes
+
+
+def run_model_case(mc):
+    """Observation: exception of the operation, per-node snapshots before/after, and whether a following well-formed
+    operation with OTHER dimensions goes through with the right shapes."""
+    rs = np.random.RandomState(mc["seed"])
+    model, nodes = _mk_model(mc["kinds"])
+    before = [snapshot(n) for n in nodes]
+    X, Y = rs.randint(-4, 5, (mc["T"], mc["d"])) / 4.0, rs.randint(-4, 5, (mc["T"], mc["m"])) / 4.0
+    rec = {"exc": None, "msg": None}
+    try:
+        getattr(model, mc["op"])(X, Y)
+    except Exception as e:  # noqa: BLE001
+        rec["exc"] = exc_class(e)
+        rec["msg"] = ("%s: %s" % (type(e).__name__, e))[:140]
+    after = [snapshot(n) for n in nodes]
+    rec["untouched"] = before == after and not model.is_initialized and not any(a["init"] for a in after)
+    rec["after"] = after
+    rec["model_initialized"] = bool(model.is_initialized)
+    if rec["exc"] is not None:
+        # the dimensions must still be free: the first accepted data decides them
+        X2, Y2 = rs.randint(-4, 5, (mc["T"] + 1, mc["d2"])) / 4.0, rs.randint(-4, 5, (mc["T"] + 1, mc["m2"])) / 4.0
+        has_online = any(c in ONLINE for c in mc["kinds"])
+        has_offline = any(c in OFFLINE for c in mc["kinds"])
+        try:
+            if has_online and not has_offline:
+                r = model.train(X2, Y2)
+                rec["then"] = {"op": "train", "out": list(np.shape(r)), "ok": list(np.shape(r)) == [mc["T"] + 1, mc["m2"]]}
+            elif not has_offline:
+                r = model.run(X2)
+                rec["then"] = {"op": "run", "out": list(np.shape(r)), "ok": np.shape(r)[0] == mc["T"] + 1}
+            else:
+                model.fit(X2, Y2)
+                r = model.run(X2)
+                rec["then"] = {"op": "fit+run", "out": list(np.shape(r)), "ok": list(np.shape(r)) == [mc["T"] + 1, mc["m2"]]}
+            rec["then"]["in_dim"] = nodes[0].input_dim
+            rec["then"]["ok"] = bool(rec["then"]["ok"] and nodes[0].input_dim == mc["d2"])
+        except Exception as e:  # noqa: BLE001
+            rec["then"] = {"ok": False, "exc": ("%s: %s" % (type(e).__name__, e))[:140]}
+    return rec
+
+
+def model_term(mc, rec):
+    ks = coqlist([coq_kind({"cls": c, "units": 3, "delay": 1, "order": 1}) for c in mc["kinds"]])
+    if mc["op"] != "fit":
+        return "true"
+    return "chk_model_fit %s %s %s" % (ks, coqbool(rec["exc"] == "TypeError"), coqbool(rec["untouched"]))
+
+
+def judge_model(mc):
+    """An operation the model does not support — offline fit without offline learner; online train while an offline learner is
+    still unfitted — is rejected (fit: TypeError-class, as documented) with every node untouched and uninitialised, and the
+    model then accepts well-formed data of other dimensions."""
+    rec = run_model_case(mc)
+    has_offline = any(c in OFFLINE for c in mc["kinds"])
+    sc = {"model": mc}
+    what = "(%s).%s(X%s, Y%s)" % (" >> ".join(mc["kinds"]), mc["op"], (mc["T"], mc["d"]), (mc["T"], mc["m"]))
+    unsupported = (mc["op"] == "fit" and not has_offline) or (mc["op"] == "train" and any(c == "Ridge" for c in mc["kinds"]))
+    if not unsupported:
+        return None
+    tag = "model-%s" % mc["op"]
+    if rec["exc"] is None:
+        return {"key": "accepted:unsupported-op:%s" % tag, "what": "%s is accepted although the model has no %s learner"
+                % (what, "offline" if mc["op"] == "fit" else "fitted/online-only"), "scenario": sc, "expected": "an exception", "observed": rec}
+    if not rec["untouched"]:
+        return {"key": "late-rejection:unsupported-op:%s" % tag,
+                "what": "%s raises %s only after nodes were initialised / modified: %s" % (what, rec["msg"], [_bs(a) for a in rec["after"]]),
+                "scenario": sc, "expected": "exception with every node untouched", "observed": rec}
+    if mc["op"] == "fit" and rec["exc"] != "TypeError":
+        return {"key": "wrong-exception:unsupported-op:%s" % tag, "what": "%s raises %s instead of the documented TypeError" % (what, rec["msg"]),
+                "scenario": sc, "expected": "TypeError", "observed": rec}
+    if not rec.get("then", {}).get("ok", False):
+        return {"key": "rejected:valid-op-after-unsupported:%s" % tag,
+                "what": "after the rejected %s, well-formed data of other dimensions is not handled correctly: %s" % (what, rec.get("then")),
+                "scenario": sc, "expected": "accepted, dims taken from this data", "observed": rec}
+    return None
+
+
+def directed_models():
+    out = []
+    for kinds in (["Reservoir", "RLS"], ["Reservoir", "LMS"], ["Reservoir", "FORCE"], ["Identity", "Tanh"], ["Reservoir", "Identity"],
+                  ["Delay", "NVAR"], ["Input", "Reservoir", "RLS"], ["Reservoir", "Ridge"], ["IPReservoir", "Identity"]):
+        out.append({"kinds": kinds, "op": "fit", "d": 3, "m": 2, "d2": 5, "m2": 1, "T": 6, "seed": 7})
+    out.append({"kinds": ["Reservoir", "Ridge"], "op": "train", "d": 3, "m": 2, "d2": 5, "m2": 1, "T": 6, "seed": 7})
+    return out
+
+
 def esn_probe():
     """ESN (the optimised FrozenModel): after fit, and after run, its reservoir and readout hold single-row 2-D states."""
     rpy()
@@ -1007,6 +1135,12 @@ def oracle(ctx, scale=1):
         if v and v["key"] not in seen:
             seen.add(v["key"])
             out.append(v)
+    models = directed_models() + [gen_model_case(rng) for _ in range(ctx.n(40, 300) * scale)]
+    for mc in models:
+        v = judge_model(mc)
+        if v and v["key"] not in seen:
+            seen.add(v["key"])
+            out.append(v)
     for key, what in concat_exposure():
         if key not in seen:
             seen.add(key)
@@ -1015,13 +1149,15 @@ def oracle(ctx, scale=1):
         if key not in seen:
             seen.add(key)
             out.append({"key": key, "what": what, "scenario": {"esn_probe": True}, "expected": None, "observed": what})
-    return {"evaluations": len(cases) + len(links) + 4, "violations": out,
+    return {"evaluations": len(cases) + len(links) + len(models) + 4, "violations": out,
             "rule": "on the real nodes, per operation: (i) dims never change once known; (ii) unsupported operations, non-array / non-numeric data, "
                     "lists where arrays are required and data whose feature size differs from the node's dims raise AND leave dims, state bytes and every "
                     "param bit-identical; (iii) accepted well-formed input of T steps returns (T, output_dim); (iv) state() is (1, output_dim) after any "
                     "accepted operation; plus Delay / single-target ScikitLearnNode feeding a Concat inside a Model; "
                     "(v) links (>>, >>=, link) whose operands are nodes, never-run Models or lists: refused iff an initialised sender and an "
-                    "initialised receiver disagree, and no dimension changes"}
+                    "initialised receiver disagree, and no dimension changes; "
+                    "(vi) Model.fit on chains without offline learner / Model.train with an unfitted offline learner: exception (TypeError for fit), "
+                    "every node untouched and uninitialised, then well-formed data of other dimensions accepted"}
 
 
 def replay(payload):
@@ -1031,6 +1167,9 @@ def replay(payload):
         return {"violates": bool(v), "detail": v}
     if "link" in sc:
         v = judge_link(sc["link"])
+        return {"violates": bool(v), "detail": v}
+    if "model" in sc:
+        v = judge_model(sc["model"])
         return {"violates": bool(v), "detail": v}
     if sc.get("esn_probe"):
         v = [k for k, _ in esn_probe() if k == payload.get("key")]
